@@ -1,6 +1,6 @@
 """C04 — eval fails only with the JSError family."""
 
-from ..rules import builtins, encoding, exceptions, frontprogress
+from ..rules import builtins, encoding, exceptions, frontprogress, textparse
 
 
 def run(ctx, rep):
@@ -16,6 +16,7 @@ def run(ctx, rep):
         implicit.rule_ord_of_case_mapping(ctx, rep, "C04-R2c")
     frontprogress.rule_frontend_progress(ctx, rep, "C04-R5")
     builtins.rule_index_bound_survives_callback(ctx, rep, "C04-R6")
+    textparse.rule_ascii_digit_scanners(ctx, rep, "C04-R7", modules=("lexer", "regex.parser", "context", "vm", "values"), floor=3)
     rep.undecided += [
         "that reported line/column are the right numbers (value property)",
         "RecursionError beyond the documented parser nesting limit",
